@@ -55,7 +55,7 @@ def edit_or_revert(r, p, past, kinds=None, p_revert=0.25):
 
 def history_c01(r, quick):
     p0 = vprogs.random_prog(r, nmem=r.choice([2, 3, 3, 4]), nplain=r.choice([1, 2]), nvar=2, hidden_p=0.2,
-                            init_p=0.25, twins_p=0.25, late_p=0.25)
+                            init_p=0.25, twins_p=0.25, late_p=0.25, shapes_p=0.5, factory_p=0.25)
     if r.random() < 0.3:
         cands = [n for n in p0["nodes"] if n["kind"] == "mem" and n["name"] != "m1"]
         if cands:
@@ -79,7 +79,7 @@ def history_c01(r, quick):
             steps.append({"do": "deliver", "how": how, "name": n["name"]})
         if r.random() < 0.2:
             alias_rebind(r, p, steps)
-        steps.append({"do": "call", "name": "m1"})
+        steps.append({"do": "call", "name": "m1", "how": r.choice(["plain", "plain", "plain", "clone", "partial"])})
         if r.random() < 0.3 and len(mems) > 1:
             steps.append({"do": "call", "name": r.choice(mems[1:])})
     return {"prog": p0, "steps": steps}
@@ -87,7 +87,8 @@ def history_c01(r, quick):
 
 def history_c03(r, quick):
     p0 = vprogs.random_prog(r, nmem=r.choice([2, 3, 4]), nplain=r.choice([1, 2]), nvar=2, hidden_p=0.0,
-                            forms=("bare", "bare", "attr", "alias", "wrapped", "wrapped2"), init_p=0.4, twins_p=0.5, late_p=0.5)
+                            forms=("bare", "bare", "attr", "alias", "wrapped", "wrapped2"), init_p=0.4, twins_p=0.5, late_p=0.5,
+                            shapes_p=0.5, factory_p=0.6)
     names = [n["name"] for n in p0["nodes"] if n["kind"] in ("mem", "plain")]
     mems = [n for n in names if n.startswith("m")]
     steps = []
@@ -108,7 +109,7 @@ def history_c03(r, quick):
 
 def history_c13(r, quick):
     p0 = vprogs.random_prog(r, nmem=r.choice([2, 3]), nplain=r.choice([1, 2]), nvar=2, hidden_p=0.0,
-                            forms=("bare", "attr", "alias", "alias"), init_p=0.2, twins_p=0.2, late_p=0.2)
+                            forms=("bare", "attr", "alias", "alias"), init_p=0.2, twins_p=0.2, late_p=0.2, shapes_p=0.5, factory_p=0.2)
     # a reference to a symbol that does not exist yet
     if r.random() < 0.5:
         r.choice([n for n in p0["nodes"] if n["kind"] in ("mem", "plain")])["refs"].append({"to": "u1", "form": "bare"})
@@ -264,14 +265,15 @@ def history_aba(r, prop):
 
 
 DIRECTED = ["slot:body", "slot:const", "slot:dflt", "slot:kwd", "slot:nested", "slot:setc", "slot:tup", "var", "var_mutate",
-            "addref", "delref", "init_helper", "twin_sm", "late_var", "late_var_mutate"]
+            "addref", "delref", "init_helper", "twin_sm", "late_var", "late_var_mutate", "factory"]
 
 
 def history_directed(r, prop, kind, inproc):
     """One edit of a given kind to something m1 (transitively) uses, delivered in-process or by a new process,
     with m1 asked before and after: every kind of edit is exercised in every run, not only when the dice say so."""
     feat = {"init_helper": {"init_p": 1.0}, "twin_sm": {"twins_p": 1.0}, "late_var": {"late_p": 1.0},
-            "late_var_mutate": {"late_p": 1.0}}.get(kind, {})
+            "late_var_mutate": {"late_p": 1.0}, "factory": {"factory_p": 1.0}}.get(kind, {})
+    feat = dict(feat, shapes_p=0.6)
     for _ in range(200):
         p0 = vprogs.random_prog(r, nmem=r.choice([2, 3]), nplain=r.choice([1, 2]), nvar=2, hidden_p=0.0, **feat)
         p = copy.deepcopy(p0)
@@ -288,6 +290,12 @@ def history_directed(r, prop, kind, inproc):
                 n = c[0]
                 n["slots"][r.choice(vprogs.SLOTS)] += 1
                 ed = {"edit": "init_helper", "name": n["name"]}
+        elif kind == "factory":
+            c = [n for n in fns if n.get("factory")]
+            if c:
+                n = r.choice(c)
+                n["slots"]["dflt"] += 2
+                ed = {"edit": "factory", "name": n["name"]}
         elif kind == "twin_sm":
             c = [n for n in fns if n.get("cls")]
             if c:
@@ -319,7 +327,9 @@ def history_directed(r, prop, kind, inproc):
         n = vprogs.node(p, ed["name"])
         if n["kind"] == "mem" and n.get("explicit") is not None:
             continue
-        ask = (lambda: {"do": "call", "name": "m1"}) if prop == "C01" else (lambda: {"do": "query", "name": "m1", "truth": True})
+        # the first call after the edit may go through a modifier (a clone of the function object)
+        ask = (lambda: {"do": "call", "name": "m1", "how": r.choice(["plain", "plain", "clone", "partial"])}) if prop == "C01" else \
+            (lambda: {"do": "query", "name": "m1", "truth": True, "how": r.choice(["plain", "plain", "clone", "partial"])})
         steps = [{"do": "proc", "hashseed": "0"}, ask(), {"do": "set", "node": copy.deepcopy(n), "why": dict(ed, directed=kind)}]
         if inproc:
             how = "reexec" if n["kind"] != "var" else ("mutate" if ed["edit"] == "var_mutate" else "setvar")
